@@ -137,6 +137,7 @@ fn replay(path: &str) -> i32 {
                 ("C10", 1) => vharness::checks_hist::c10_case(&mut rng, &mut st),
                 ("C11", 1) => vharness::checks_hist::c11_case(&mut rng, &mut st),
                 ("C12", 1) => vharness::checks_hist::c12_case(&mut rng, &mut st),
+                ("C12", 2) => vharness::checks_hist::c12_reuse_case(&mut rng, &mut st),
                 ("C13", 1) => vharness::checks_conc::c13_case(&mut rng, index, &mut st),
                 ("C14", 1) => {
                     let progress = std::sync::atomic::AtomicU64::new(0);
